@@ -360,15 +360,21 @@ def run(tier, only=None):
     t0 = time.time()
     shapes = [s for s in (QUICK if tier == "quick" else THOROUGH) if not only or s[0] in only]
     sshapes = [s for s in (SG.QUICK if tier == "quick" else SG.THOROUGH) if not only or "sign" in only or s[0] in only]
-    built = build(drivers(shapes) + (SG.drivers(sshapes) if sshapes else []), tag="C08-cut", cut=True)
+    from . import C08_key as KY
+    kitems = [it for it in KY.items() if not only or "key" in only or it[0] in only]
+    # the verify drivers are always compiled in: with fewer call sites LLVM inlines Scalar::set_decode32 (the stub point)
+    built = build(drivers(shapes if shapes else QUICK[:4]) + (SG.drivers(sshapes) if sshapes else []) + (KY.drivers() if kitems else []),
+                  tag="C08-cut", cut=True)
     shooks = SG.Hooks(built) if sshapes else None
     timeout = 60 if tier == "quick" else 300
-    items = [("verify", s) for s in shapes] + [("sign", s) for s in sshapes]
+    items = [("verify", s) for s in shapes] + [("sign", s) for s in sshapes] + [("key", it) for it in kitems]
 
     def work(it):
         T.reset()
         if it[0] == "sign":
             return SG.check_sign(built, shooks, it[1], timeout)
+        if it[0] == "key":
+            return KY.check(built, it[1][0], it[1][1], timeout)
         return check_shape(built, it[1], timeout)
     res = pmap(work, items, nproc=NCPU, timeout=timeout * 20)
     obs = []
@@ -376,7 +382,8 @@ def run(tier, only=None):
         if st == "ok":
             obs.extend(val)
         else:
-            o = Obligation(SG.ob_name(it[1]) if it[0] == "sign" else "default:%s.verify_hash[pk=%d,sig=%d,hv=%d]" % it[1], "L")
+            o = Obligation(SG.ob_name(it[1]) if it[0] == "sign" else ("default:%s.PrivateKey.decode[len=%d]" % it[1] if it[0] == "key"
+                                                                     else "default:%s.verify_hash[pk=%d,sig=%d,hv=%d]" % it[1]), "L")
             o.unknown("%s: %s" % (st, str(val)[-400:]))
             obs.append(o)
     built.close()
